@@ -4,6 +4,7 @@ from __future__ import annotations
 
 from .. import formcheck, strategies
 from ..common import Run, ShardResult, run_shards, scratch, verif_seed
+from ..common import thorough  # noqa: E402
 from ..hyp import drive
 
 PROP = "C01"
@@ -65,7 +66,7 @@ def replay_corpus(run_):
 def run(tier: str) -> int:
     run_ = Run(PROP, tier, "exploration", RULE)
     replay_corpus(run_)
-    n = 10 if tier == "quick" else 260
+    n = 10 if tier == "quick" else thorough(100)
     nshards = 16
     for part in run_shards(shard, nshards, n=n, tier=tier, seed=verif_seed()):
         run_.merge(part)
